@@ -47,12 +47,12 @@ def impl(ldn, widths, text):
         return [rows, "leak:" + type(e).__name__]
 
 
-def impl_path(ldn, widths, text):
-    """the same characters stored in a file (UTF-8) and read by path"""
+def impl_path(ldn, widths, text, tail=b""):
+    """the same characters stored in a file (UTF-8) and read by path; [tail]: bytes appended that are no UTF-8"""
     os.makedirs(TMP, exist_ok=True)
     path = os.path.join(TMP, "fixed_%d.txt" % os.getpid())
     with open(path, "wb") as fh:
-        fh.write(text.encode("utf-8", "surrogatepass"))
+        fh.write(text.encode("utf-8", "surrogatepass") + tail)
     rows = []
     try:
         for r in rowio.fixed_rows(path, "utf-8", [("f%d" % i, w) for i, w in enumerate(widths)], LDN[ldn]):
@@ -100,6 +100,12 @@ def make_case(inp):
         by_path = impl_path(ldn, widths, text)
         if by_path != obs:
             obs = obs + [{"by_path": by_path}]
+        elif crc % 12 == 0:
+            # the file goes on with bytes that cannot be decoded (right behind a record, where a delimiter is due, or
+            # inside one): a data-format error after the rows read so far, nothing else
+            broken = impl_path(ldn, widths, text, tail=b"\xc3" if crc % 24 else b"\xff\n")
+            if broken[1] is not False or broken[0] != obs[0][:len(broken[0])]:
+                obs = obs + [{"by_path": "with undecodable bytes appended to the file the read gives %r (rows of the intact part: %r)" % (broken, obs[0])}]
     ok = obs[1] is True
     coq = P(P(ldn, L(widths, Nat), S(text)), P(L(obs[0], lambda r: L(r, S)), B(ok)))
     return {"coq": coq, "obs": obs, "nontrivial": text != "", "tags": [ldn, "ok" if ok else "error", "len%d" % min(len(text), 10)]}
